@@ -4,7 +4,15 @@ import os, pickle, signal, select, time
 
 
 def run_isolated(func, arg, timeout=60):
-    """returns ("ok", result) | ("crash", signal number) | ("hang", None) | ("exit", code)"""
+    """returns ("ok", result) | ("crash", signal number) | ("hang", None) | ("exit", code).  A child that does not answer in time is tried once
+    more with five times the limit before it counts as a hang: on a loaded machine a fork can stall for longer than the work it does."""
+    res = _run_once(func, arg, timeout)
+    if res[0] == "hang" and timeout <= 300:
+        res = _run_once(func, arg, timeout * 5)
+    return res
+
+
+def _run_once(func, arg, timeout):
     r, w = os.pipe()
     pid = os.fork()
     if pid == 0:
